@@ -303,4 +303,5 @@ def insert_result_ensures(m):
         ('ok_fits_exact', ['C09', 'C03', 'C04'], '(value is Ok && (old(self).limit is None || %s.len() <= old(self).limit->Some_0)) ==> '
          'final(self).order@ == %s && %s.dom() == %s.dom().insert(%s)' % (Q1, Q1, M1, M0, K)),
         ('survivors_unchanged', ['C01', 'C09'], 'forall|x: String| x != %s && #[trigger] %s.contains_key(x) ==> %s.contains_key(x) && %s[x] == %s[x]' % (K, M1, M0, M1, M0)),
+        ('stats_frame', ['C15'], 'final(self).stats == old(self).stats'),
     ]
